@@ -136,7 +136,12 @@ class ProcessExecutor:
         """Start processes for the oldest pending futures to bring
         running process count up to max_workers."""
         start_count = max(0, self.max_workers - len(self._running_id_to_future_and_process))
-        futures_to_start = list(self._pending_future_to_thunk.keys())[:start_count]
+        # (A future that is both pending and running was being started
+        # when an interrupt arrived: it counts as running.)
+        futures_to_start = [
+            future for future in self._pending_future_to_thunk.keys()
+            if future.id not in self._running_id_to_future_and_process
+        ][:start_count]
         for future in futures_to_start:
             thunk = self._pending_future_to_thunk[future]
             process = self.mp_context.Process(  # type: ignore[attr-defined]
@@ -147,12 +152,16 @@ class ProcessExecutor:
                     result_queue=self._result_queue,
                 ),
             )
-            # The future stays pending (and can still be cancelled) until
-            # its process has really been started: an interrupt during
-            # start() must not leave a future that is neither pending
-            # nor running, nor a "running" process that was never started.
-            process.start()
-            self._running_id_to_future_and_process[future.id] = (future, process)
+            # An interrupt while the process is being started must leave
+            # the future either pending (so that it can still be
+            # cancelled) or running with a process that really was
+            # started (so that it is waited for, or stopped).
+            try:
+                self._running_id_to_future_and_process[future.id] = (future, process)
+                process.start()
+            finally:
+                if process.pid is None:
+                    self._running_id_to_future_and_process.pop(future.id, None)
             del self._pending_future_to_thunk[future]
 
     def submit(self, fn: Callable, /, *args, **kwargs) -> Future:
@@ -168,7 +177,8 @@ class ProcessExecutor:
         """Cancel all pending futures."""
         pending_futures = list(self._pending_future_to_thunk.keys())
         for future in pending_futures:
-            future.cancel()
+            if future.id not in self._running_id_to_future_and_process:
+                future.cancel()
             del self._pending_future_to_thunk[future]
 
     def stop(self) -> None:
